@@ -18,6 +18,8 @@ def specs_for(chk, n, profile):
                 'tcat': profile.get('tcat', True)}
         if excl_hint(profile, i):
             opts['cat_tail'] = True
+        if profile.get('excl') and i % 7 == 3:
+            opts['fixed_cat'] = True
         if profile.get('reuse') and i % 4 == 1:
             opts['reuse'] = True
         if profile.get('unsupported') and i % profile.get('unsupported_every', 6) == 0:
